@@ -81,7 +81,7 @@ func (a *Real64) ConvertScalar(t ScalarType) Scalar {
   default:
     r := NullScalar(t)
     r.Set(a)
-    return a
+    return r
   }
 }
 func (a *Real64) ConvertMagicScalar(t ScalarType) MagicScalar {
@@ -89,9 +89,9 @@ func (a *Real64) ConvertMagicScalar(t ScalarType) MagicScalar {
   case Real64Type:
     return a
   default:
-    r := NullScalar(t)
+    r := NullMagicScalar(t)
     r.Set(a)
-    return a
+    return r
   }
 }
 func (a *Real64) ConvertConstScalar(t ScalarType) ConstScalar {
